@@ -237,6 +237,8 @@ var c11Templates = []c11Tmpl{
 	{key: "identical", args: "identical -c other.fa {infa}", in: "nt"},
 	{key: "append", args: "append other.fa {infa}", in: "nt"},
 	{key: "concat", args: "concat other.fa {infa}", in: "nt"},
+	{key: "concat new names", args: "concat other2.fa other.fa {infa}", in: "nt"},
+	{key: "append new names", args: "append other2.fa {infa}", in: "nt"},
 	{key: "divide", args: "divide -o div {in}", in: "nt"},
 	{key: "split", args: "split --partition part.txt --out-prefix sp_ {in}", in: "nt"},
 	{key: "extract", args: "extract --coordinates coord.txt --translate -1 -o . {infa}", in: "nt"},
@@ -335,6 +337,16 @@ func (c11) Gen(rs uint64, tier string, race bool) interface{} {
 		os2[i] = fit(os2[i], len(ns[0]))
 	}
 	c.Files["other.fa"] = fastaOf(on2, os2)
+	{
+		// the same rows, half of them under names the first alignment does not hold
+		on3 := append([]string{}, on2...)
+		for i := range on3 {
+			if i%2 == 0 {
+				on3[i] = fmt.Sprintf("Extra%02d", (i*7+3)%len(on3))
+			}
+		}
+		c.Files["other2.fa"] = fastaOf(on3, os2)
+	}
 	c.Files["names.txt"] = nn[1] + "\n" + nn[2] + "\n"
 	c.Files["map.in"] = nn[0] + "\tRenamedA\n" + nn[2] + "\tRenamedB\n"
 	l := len(ns[0])
